@@ -475,6 +475,7 @@ class Episode:
                 self.ended = "skip"
                 return
             new_by_pool[pool].append((MContainer(None, pool, mpipe, range(lo, hi), cpu, ram, plans, self.tps), bad))
+            new_by_pool[pool][-1][0].real_ops = list(ops)
             if getattr(mpipe, "was_suspended", False):
                 out.label("reassigned_after_suspension")
                 new_by_pool[pool][-1][0].after_suspension = True
@@ -530,13 +531,38 @@ class Episode:
             self.problem("C08:valid-round-refused", f"admissible commands sus={sus_by_pool} asg={batch_by_pool} raised {type(exc).__name__}: {exc}")
             self.ended = "problem"
             return
-        # ---- accepted: advance the model with ids in creation order (pool order, then batch order)
+        # ---- accepted: learn the identifier the implementation gave to each new container (matched through the first
+        # operator object it holds, so nothing is assumed about the naming scheme); exactly one container per assignment
+        first_op = {}
         for pool in range(npools):
             for c, bad in new_by_pool[pool]:
-                c.cid = f"c{self.next_cid}"
-                self.next_cid += 1
-                self.containers[c.cid] = c
-                self.stats["accepted"] += 1
+                first_op[id(c.real_ops[0])] = c
+        seen_real = {}
+        for p_ in self.ex.pools:
+            for rc in list(p_.active_containers) + list(p_.suspending_containers):
+                seen_real.setdefault(rc.container_id, (rc.operators, p_.pool_id))
+        for r in results:
+            seen_real.setdefault(r.container_id, (r.ops, r.pool_id))
+        for rcid, (rops_, rpool) in seen_real.items():
+            if rcid in self.containers:
+                continue
+            mc = first_op.pop(id(rops_[0]), None) if rops_ else None
+            if mc is None:
+                self.problem("C09:unexpected-container", f"container {rcid} in pool {rpool} does not belong to any assignment of this round")
+                continue
+            if rpool != mc.pool or [id(o) for o in rops_] != [id(o) for o in mc.real_ops]:
+                self.problem("C09:container-differs-from-assignment", f"container {rcid}: pool {rpool} / {len(rops_)} operators, assignment: pool {mc.pool} / {len(mc.real_ops)} operators")
+            mc.cid = rcid
+            self.containers[rcid] = mc
+            self.stats["accepted"] += 1
+        for mc in first_op.values():
+            self.problem("C09:assignment-without-container", f"accepted assignment of {len(mc.real_ops)} operator(s) to pool {mc.pool} produced no container")
+            mc.cid = f"missing{self.next_cid}"
+            self.next_cid += 1
+            self.containers[mc.cid] = mc
+        if self.out.problems:
+            self.ended = "problem"
+            return
         real_failed = {r.container_id for r in results if r.failed()}
         problems = []
         for pool in range(npools):
@@ -710,6 +736,7 @@ def run_episode(spec):
         raise
     s = ep.stats
     out.extra_evals = s["ticks"]
+    out.label("pm")
     if s["oom"]:
         out.label("had_failure")
     if s["ok"]:
